@@ -151,6 +151,9 @@ def job_continuum(cfg):
             if len(stray) == 2:
                 break
         nodes = np.array(sorted(set(fn.tolist()) | set(stray)))
+    elif sel == "repeated":
+        # the selection lists some node ids twice (what concatenating the node lists of two adjacent edges / faces gives): same loaded region
+        nodes = np.concatenate([fn, fn[: max(1, len(fn) // 2)]])
     else:
         nodes = fn
     if load == "surf_nodal":
@@ -479,6 +482,9 @@ def main():
             k += 1
     for et in ("TRI3", "QUAD4", "TETRA4", "PRISM6"):
         configs.append({"sim": "elastic", "elem": et, "load": "surf_poly", "selection": "only-stray", "axis": 0, "value": 1.0})
+    for et, load in ((("TRI3", "surf_poly"), ("HEXA8", "surf_const"), ("PRISM6", "pressure")) if tier == "quick" else
+                     (("TRI3", "surf_poly"), ("QUAD8", "surf_const"), ("TETRA4", "surf_poly"), ("HEXA8", "surf_const"), ("PRISM6", "pressure"), ("TRI6", "pressure"))):
+        configs.append({"sim": "elastic", "elem": et, "load": load, "selection": "repeated", "axis": 0, "value": 1.0})
     for et in (("TRI3", "PRISM6") if tier == "quick" else ("TRI3", "QUAD8", "TETRA4", "PRISM6")):
         configs.append({"sim": "elastic", "elem": et, "load": "point_array"})
     for et in (("TRI3", "HEXA8") if tier == "quick" else ("TRI3", "TRI6", "QUAD4", "TETRA4", "HEXA8")):
@@ -498,7 +504,7 @@ def main():
                     "position), symbolic thickness / pressure and a symbolic moment reference point on real meshes of the unit square / cube (boundary groups of every type, prism faces "
                     "mixing triangles and quadrangles, node selections with stray nodes) and on inclined beams; resultants and first moments of the nodal force vector are compared with "
                     "closed-form integrals as linear / bilinear identities (z3: QF_LRA exact, monomial-box relaxation for the bilinear moment terms).",
-        bound={"elements_2d": el2, "elements_3d": el3, "loads": loads, "selections": ["whole face", "face + stray nodes"], "density_degree": 1,
+        bound={"elements_2d": el2, "elements_3d": el3, "loads": loads, "selections": ["whole face", "face + stray nodes", "only stray nodes", "face with node ids listed twice"], "density_degree": 1,
                "beams": "2 elements along (3,4,0) / (2,3,6), Euler-Bernoulli and Timoshenko, uniform global load (qx, qy)", "tolerance": "1e-10 .. 1e-8"},
         symbolic=["load coefficients c0..c3", "thickness", "pressure", "moment reference point x0", "beam load (qx, qy)"],
         assumptions=["loaded regions are faces of the unit square / cube (closed-form integrals)", "density degree 1 (within every 'mass' rule's exactness for resultant and moment)"],
